@@ -1,6 +1,23 @@
-"""C19 -- the leaf permutation word"""
+"""C19 -- the leaf permutation word: every operation bit for bit against PermDefs (+ list-level oracle, + exactly
+one store per update), and the reader-side clause (a reader sees either the old or the new ordering): lookups
+racing with inserts / removes of OTHER keys of the same leaf, which shift ranks and change the count, judged by the
+verified linearizability checker on the real library under the scheduler."""
+import json
+
 from . import common as C
+from . import conc
 from . import leaf
+
+READER_SCENARIOS = ["get-last-vs-rem-first", "get-last-vs-rem-mid", "get-mid-vs-put-first", "rem-last-vs-rem-first",
+                    "uput-last-vs-rem-first", "get-vs-rem-put-other", "get-vs-rem-put-other2"]
+
+
+def conc_part(res):
+    conc.conc_phase(res, "c19", ("lin", "null", "deadlock", "coherent"), READER_SCENARIOS, (), False, 1600, ("preempt1",), 1,
+                    gen=conc.catalogue_gen, label="reader_vs_reordering")
+    if res.tier != "quick":
+        conc.conc_phase(res, "c19", ("lin", "null", "deadlock", "coherent"), ["single", "full"], ("get", "rem", "put", "uput"),
+                        False, 800, ("preempt2", "pct"), 6, label="reader_vs_reordering_random")
 
 
 def run(tier, seed):
@@ -8,11 +25,17 @@ def run(tier, seed):
     res.assumptions = [
         "theorems are about coq/PermDefs.v; tie: every permutation.h operation is run on generated words and "
         "compared bit for bit with the extracted definitions (plus tree dumps under C08)",
-        "single-word publication: each model operation returns one word; the real functions end in one set_body",
+        "single-word publication: each model operation returns one word; the real functions must end in exactly one "
+        "store of the word (counted through the hooks)",
+        "reader side: explored under the scheduler (sequentially consistent interleavings), judged by lin_check",
     ]
-    return leaf.run_leaf_property(res, "c19", leaf.gen_perm, leaf.nontrivial_perm)
+    return leaf.run_leaf_property(res, "c19", leaf.gen_perm, leaf.nontrivial_perm, post=conc_part)
 
 
 def replay(path, tier, seed):
+    r = json.load(open(path))
+    if str(r.get("kind", "")).startswith("conc-"):
+        print(json.dumps(r, indent=1)[:3000])
+        return 1
     res = C.Result("C19", tier, seed)
     return leaf.replay(res, "c19", path)
